@@ -122,10 +122,13 @@ fn next_str<'s>(bytes: &mut &'s [u8], state: &mut State) -> Option<&'s str> {
     });
     let (_, next) = bytes.split_at(offset.unwrap_or(bytes.len()));
     *bytes = next;
-    *state = State::Ground;
+    if *state == State::Utf8 {
+        // `str` is already validated; multi-byte characters are taken as a whole below
+        *state = State::Ground;
+    }
 
     let offset = bytes.iter().copied().position(|b| {
-        let (_next_state, action) = state_change(State::Ground, b);
+        let (_next_state, action) = state_change(*state, b);
         !(is_printable_bytes(action, b) || is_utf8_continuation(b))
     });
     let (printable, next) = bytes.split_at(offset.unwrap_or(bytes.len()));
